@@ -80,9 +80,39 @@ func closerOf(outer string) string {
 	return "other:" + outer
 }
 
+// lifeLogger is the process-wide capturing logger of the lifecycle workers; its OnRec hook is the delay-injection
+// point inside the library (records are emitted in recv's and send's loops, before every error-triggered close,
+// inside Close's critical section and in the handlers).
+var lifeLogger *rig.CapLogger
+
 // runLife executes one scenario and judges it.
 func runLife(c *Ctx, sc lifeSc, seedLabel ...interface{}) (out lifeOutcome) {
 	r := rig.Rand(append([]interface{}{c.Seed, "life"}, seedLabel...)...)
+	if lifeLogger != nil {
+		// PRNG-chosen Gosched storms / short sleeps at the library's own log sites (half of the scenarios)
+		var dmu sync.Mutex
+		dr := rig.Rand(append([]interface{}{c.Seed, "life-delay"}, seedLabel...)...)
+		inject := dr.Intn(2) == 0
+		lifeLogger.SetHook(func(rec *rig.LogRecord) {
+			if !inject {
+				return
+			}
+			dmu.Lock()
+			a, b := dr.Intn(8), dr.Intn(40)
+			k := 1 + dr.Intn(30)
+			d := time.Duration(20+dr.Intn(180)) * time.Microsecond
+			dmu.Unlock()
+			if a == 0 {
+				for i := 0; i < k; i++ {
+					runtimeGosched()
+				}
+			}
+			if b == 0 {
+				time.Sleep(d)
+			}
+		})
+		defer lifeLogger.SetHook(nil)
+	}
 	lg := rig.NewLog()
 	add := func(prop, kind, detail string) {
 		out.Findings = append(out.Findings, lifeFinding{Prop: prop, Kind: kind, Detail: detail})
